@@ -281,7 +281,7 @@ class Engine:
             ctx.close()
 
     def _write_replay(self, v, cnt):
-        d = os.path.join(VERIF, "replays")
+        d = os.environ.get("VERIF_REPLAY_DIR") or os.path.join(VERIF, "replays")
         os.makedirs(d, exist_ok=True)
         blob = json.dumps({"property": self.prop, "kind": v.kind, "sig": v.sig, "detail": v.detail, "count": cnt,
                            "scratch_base": v.base, "case": v.case}, sort_keys=True, indent=1, default=_json_default)
@@ -317,7 +317,7 @@ def unjson(o):
 
 
 def write_evidence(prop, ev):
-    d = os.path.join(VERIF, "evidence")
+    d = os.environ.get("VERIF_EVIDENCE_DIR") or os.path.join(VERIF, "evidence")   # (tools/try_*.sh redirect it)
     os.makedirs(d, exist_ok=True)
     path = os.path.join(d, f"{prop}.json")
     tmp = path + ".tmp"
